@@ -88,10 +88,33 @@ def t_reset_parser(ck, ctx):
     return written, exposed
 
 
-def fresh_value(e):
-    """expression that certainly yields a new / immutable object"""
+def fresh_value(e, func_node=None, _seen=None):
+    """expression that certainly yields a new / immutable object (a local name: every binding of it in the function does)"""
     if isinstance(e, ast.Constant):
         return True
+    if isinstance(e, ast.Name) and func_node is not None:
+        _seen = _seen or set()
+        if e.id in _seen:
+            return True
+        _seen = _seen | {e.id}
+        params = {a.arg for a in func_node.args.args + func_node.args.kwonlyargs + func_node.args.posonlyargs}
+        if e.id in params:
+            return False
+        binds = []
+        for n in ast.walk(func_node):
+            if isinstance(n, ast.Assign) and any(isinstance(t, ast.Name) and t.id == e.id for t in n.targets):
+                binds.append(n.value)
+            elif isinstance(n, (ast.AnnAssign, ast.AugAssign, ast.NamedExpr)) and isinstance(n.target, ast.Name) and n.target.id == e.id:
+                if isinstance(n, ast.AugAssign) or n.value is None:
+                    return False
+                binds.append(n.value)
+            elif isinstance(n, (ast.For, ast.comprehension)) and any(isinstance(x, ast.Name) and x.id == e.id for x in ast.walk(n.target)):
+                return False
+            elif isinstance(n, (ast.With,)) and any(i.optional_vars is not None and any(isinstance(x, ast.Name) and x.id == e.id for x in ast.walk(i.optional_vars)) for i in n.items):
+                return False
+        return bool(binds) and all(fresh_value(b, func_node, _seen) for b in binds)
+    if isinstance(e, ast.IfExp):
+        return fresh_value(e.body, func_node, _seen) and fresh_value(e.orelse, func_node, _seen)
     if isinstance(e, (ast.List, ast.Dict, ast.Set, ast.Tuple, ast.ListComp, ast.DictComp, ast.SetComp, ast.JoinedStr)):
         return True
     if isinstance(e, ast.Call):
@@ -129,7 +152,7 @@ def t_fresh_escaping(ck, ctx):
         for f, a in stores:
             st = a.stmt
             val = getattr(st, "value", None)
-            ok = val is None or fresh_value(val)
+            ok = val is None or fresh_value(val, f.node)
             ck.ob("T-FRESH", f"{f.qual}:{p} = {ast.unparse(val) if val is not None else '?'}", ok,
                   f"{p} escapes into the returned result; it must be bound to a fresh object", f.loc(a.node))
     return escaping
